@@ -8,6 +8,7 @@ GROUPS = {
     "mailbox": ["C01", "C02", "C03", "C08", "C09", "C14", "C18"],
     "codes": ["C19"],
     "hints": ["C20"],
+    "transit": ["C06", "C07"],
 }
 
 
